@@ -32,6 +32,7 @@ for s in $seeds; do
     caught=$((caught+1)); echo "$s CAUGHT by $ids:$key"
   else
     missed=$((missed+1)); echo "$s NOT-CAUGHT by $ids (exit $code)"
+    [ $code -eq 2 ] && tail -5 "$scratch/log" | cut -c1-300 | sed 's/^/    | /' 
   fi
 done
 echo "seeded regression: caught=$caught not-caught=$missed skipped=$skipped"
